@@ -329,6 +329,57 @@ def _frontier(space, k, target, cap=6000):
     return st, roots
 
 
+WORKER_AS_LIMIT = int(os.environ.get('VERIF_WORKER_AS_GIB', '4')) << 30
+
+
+def _worker_init():
+    """Every worker lives under an address-space limit: a runaway allocation in the code under test raises MemoryError inside
+    the worker (an observation the oracle judges) instead of inviting the OOM killer, which would silently take a worker away."""
+    import resource
+    try:
+        resource.setrlimit(resource.RLIMIT_AS, (WORKER_AS_LIMIT, WORKER_AS_LIMIT))
+    except (ValueError, OSError):
+        pass
+
+
+class WorkerPool:
+    """multiprocessing.Pool hangs for ever when a worker is killed; this one (concurrent.futures) notices and turns it into a HarnessError."""
+
+    def __init__(self, n=None):
+        import concurrent.futures as cf
+        self._cf = cf
+        self.ex = cf.ProcessPoolExecutor(max_workers=n or NPROC, mp_context=mp.get_context('fork'), initializer=_worker_init)
+
+    def imap_unordered(self, fn, tasks, chunksize=1):
+        tasks = list(tasks)
+        chunks = [tasks[i:i + chunksize] for i in range(0, len(tasks), chunksize)]
+        futs = [self.ex.submit(_run_chunk, fn, c) for c in chunks]
+        try:
+            for f in self._cf.as_completed(futs):
+                for r in f.result():
+                    yield r
+        except self._cf.process.BrokenProcessPool:
+            raise HarnessError('a worker process died while running %s (killed by the operating system - memory exhaustion?)' % getattr(fn, '__name__', fn))
+
+    def terminate(self):
+        self.ex.shutdown(wait=False, cancel_futures=True)
+        for p in list(getattr(self.ex, '_processes', {}).values()):
+            try:
+                p.terminate()
+            except Exception:       # noqa: BLE001
+                pass
+
+    def __enter__(self):
+        return self
+
+    def __exit__(self, *a):
+        self.ex.shutdown(wait=True, cancel_futures=True)
+
+
+def _run_chunk(fn, chunk):
+    return [fn(t) for t in chunk]
+
+
 def run_spaces(spaces, log=None):
     """Enumerate every space; returns list of per-space result dicts."""
     global _SPACES
@@ -356,7 +407,7 @@ def run_spaces(spaces, log=None):
                 tasks.append(('bulk', si, part))
     if tasks:
         if NPROC > 1:
-            with ctx.Pool(NPROC) as pool:
+            with WorkerPool(NPROC) as pool:
                 for kind, si, res in pool.imap_unordered(_task, tasks, chunksize=max(1, min(64, len(tasks) // (NPROC * 32)))):
                     _merge(agg[si], kind, res)
         else:
